@@ -11,6 +11,7 @@ def _setup():
         f = FLAVOURS[name]
         env = ' '.join(f"{k}='{v}'" for k, v in f.get('env', {}).items())
         parts.append(f"CARGO_NET_OFFLINE=true {env} {' '.join(f['cmd'])}".replace('  ', ' '))
+    parts.append('CARGO_NET_OFFLINE=true cargo build --release --offline --manifest-path /repo/Cargo.toml -p axmosdb --bin axmos-server --target-dir ../target/server')
     return 'cd /verif/harness && ' + ' && '.join(parts)
 
 
